@@ -123,6 +123,8 @@ type Exec struct {
 	randCtr  int64
 	hooks    *threadSched
 	frozen   *frozenSet
+	schedVec []int // scheduling choices (index among runnable threads), in order
+	curFrame *frame
 }
 
 type obs struct {
@@ -145,6 +147,7 @@ type Violation struct {
 	Kinds  []string
 	Case   string
 	Decisions []int
+	Sched  []int
 }
 
 func mustDeref(t types.Type) types.Type {
@@ -251,6 +254,7 @@ func (fr *frame) runDefers() {
 func visitInstr(fr *frame, instr ssa.Instruction) continuation {
 	ex := fr.ex
 	fr.curInstr = instr
+	ex.curFrame = fr
 	ex.steps++
 	if ex.steps > ex.eng.MaxSteps {
 		panic(engineError{"UNWIND-EXCEEDED: instruction budget exhausted in " + fr.where()})
